@@ -16,12 +16,14 @@ def build(repo, tier, seed):
         from harness import runtime_search
         return runtime_search.search(seed, budget=1500 if tier == "quick" else 20000)
 
+    from .common import history_induction
+    h_syn, h_und = history_induction()
     return {
-        "vcs": vcs, "undecided": undecided, "functions": functions, "hashes": hashes, "witness": witness,
+        "vcs": vcs, "syntactic": h_syn, "undecided": undecided + h_und, "functions": functions, "hashes": hashes, "witness": witness,
         "level": "proof",
         "trusted_base": ["ghost stack/base model of `with` nesting (contracts/runtime_c14.py: rep)",
                          "dict get/setdefault/pop, list append/pop, attribute stores as modelled in pyvc/models.py"],
         "assumptions": ["history statement = Rep is an invariant of every operation (each a VC) + the run postcondition; "
-                        "the induction over well-nested histories is the standard invariant argument (not mechanised)",
+                        "the induction over histories is the abstract lemma lean/Histories.lean (inv_of_reach / good_along_histories), checked by the Lean 4 kernel; that the VCs instantiate its hypotheses is by inspection",
                         "handlers are uninterpreted callables (call(h, req))"],
     }
